@@ -50,6 +50,9 @@ func (p c06) Gen(seed uint64, tier string, idx int) (*Case, bool) {
 			c.DFS = 0 // long inputs (deep nesting, giant words): sampled schedules only
 			c.Note = "curated-long"
 		}
+		if len(c.Src) > 3000 && tier != "thorough" {
+			return nil, false // the very long ones (1100-deep nesting, 70 KB words) are C01's business; C06 runs them in the thorough tier
+		}
 		return c, true
 	}
 	idx -= len(cur)
